@@ -106,7 +106,7 @@ func TestEnumSeq(t *testing.T) {
 					for _, d := range styles {
 						c := Case{Script: gen.Script{Ops: ops}, Seq: []RenderAt{{At: len(ops), Style: a, Reuse: true}, {At: len(ops), Style: b, Reuse: true}, {At: len(ops), Style: d, Reuse: true}}}
 						evals++
-						ev.R().EvalEnum(nil, nt || true, classes...)
+						ev.R().EvalEnum(nil, nt || a != b || b != d, classes...) // non-trivial: the history is, or two different renderers meet on the table
 						if v := ev.Guard(func() *ev.Violation { return CheckCase(c) }); v != nil {
 							ev.R().Fail(ID, c, v)
 							t.Fatalf("VIOLATION %s: %s", ID, firstLine(v.Msg))
